@@ -18,4 +18,5 @@ let () =
   | "c17" -> per_line M_c17.line
   | "c17u" -> per_line M_c17.uline
   | "c17e" -> per_line M_c17.eline
+  | "c07" -> per_line M_c07.line
   | _ -> prerr_endline ("unknown mode " ^ mode); exit 2
